@@ -109,46 +109,281 @@ def emit(kind, seed, cf, tier, drop=()):
         src, spans, cases = ge.emit_c08(seed, cf["w"], cf["be"], cf["deg"], cf["nmod"], tier, parts=cf.get("parts"))
     if drop:
         # remove the calls of the dropped cases (their bodies stay out of the way: delete the function bodies too)
-        lines = src.split("\n")
-        kill = set()
-        for (a, b, k) in spans:
-            if k in drop:
-                kill.update(range(a - 1, b))
-        fn = "case_" if kind == "c07" else "shape_"
-        lines = [l for i, l in enumerate(lines) if i not in kill and not any(re.match(r"\s*%s%d\(e" % (fn, k), l) for k in drop)]
-        src = "\n".join(lines)
+        src = drop_cases(src, spans, drop, "case_" if kind == "c07" else "shape_")
     return src, spans, cases
 
 
-def run_probes(ctx, seed, tier, cov):
-    """compile a sample of predicted-accepted and predicted-rejected single-expression TUs"""
+_probe_cache = None
+PROBE_CACHE = os.path.join(cl.BUILD, "expr_probe_cache.json")
+
+
+def _gxx_version():
+    r = cl.run(["g++", "--version"])
+    return (r.stdout or "").splitlines()[0] if r.returncode == 0 and r.stdout else "?"
+
+
+_probe_lock = __import__("threading").Lock()
+
+
+def load_probe_cache():
+    global _probe_cache
+    import json
+    with _probe_lock:
+        if _probe_cache is not None:
+            return
+        gxx = _gxx_version()
+        try:
+            c = json.load(open(PROBE_CACHE))
+        except Exception:
+            c = {}
+        if c.get("_gxx") != gxx:
+            c = {"_gxx": gxx}
+        _probe_cache = c
+
+
+def probe_compile(tag, be, source):
+    """does the single-statement source compile (-fsyntax-only) against the current tree?  (ok, tail of the diagnostics, cached).
+    Verdicts are cached by content (source, flags, hash of the tree's headers, runtime header, compiler version)."""
+    load_probe_cache()
+    flags = base_flags(be, syntax_only=True)
+    h = hashlib.sha256()
+    h.update(source.encode()); h.update(cl.get_repo_hash().encode()); h.update(rt_hash().encode())
+    h.update(" ".join(f for f in flags if not f.startswith("-I")).encode())
+    key = h.hexdigest()[:24]
+    if key in _probe_cache:
+        return bool(_probe_cache[key][0]), _probe_cache[key][1], True
+    os.makedirs(GEN_DIR, exist_ok=True)
+    src = os.path.join(GEN_DIR, "probe_%s.cpp" % tag)
+    open(src, "w").write(source)
+    r = cl.run(["g++"] + flags + [src])
+    ok, err = r.returncode == 0, (r.stderr or "")[-600:]
+    if ok or (r.returncode == 1 and "error" in (r.stderr or "")):      # a genuine verdict of the compiler (not a killed / failed run)
+        _probe_cache[key] = [1 if ok else 0, err]
+    return ok, err, False
+
+
+def save_probe_cache():
+    import json
+    if _probe_cache is None:
+        return
+    keys = [k for k in _probe_cache if k != "_gxx"]
+    for k in keys[:-6000]:            # bounded
+        del _probe_cache[k]
+    try:
+        json.dump(_probe_cache, open(PROBE_CACHE, "w"))
+    except OSError:
+        pass
+
+
+def auto_prep(t):
+    """operand preparation that makes an arbitrary tree admissible (every third operand of a fused product = the precomputed
+    quotient of the second factor), or None when the tree cannot be made admissible by setting holder leaves"""
+    prep, used = [], []
+
+    def walk(n):
+        if n[0] in "PQ":
+            return True
+        if n[0] == "shoup":
+            x, q = n[1], n[2]
+            if x[0] != "mul":
+                return False
+            if q[0] in "PQ":
+                if q in used:
+                    return False
+                used.append(q)
+                prep.append((q, x[2]))
+            elif not (q[0] == "cshoup" and q[1] == x[2]):
+                return False
+            return walk(x[1]) and walk(x[2]) and (q[0] in "PQ" or walk(q[1]))
+        return all(walk(c) for c in n[1:])
+
+    if not walk(t):
+        return None
+    for (q, y) in prep:
+        # the holder must not be an operand anywhere else (its value is overwritten by the preparation)
+        def count(n):
+            return (1 if n == q else 0) if n[0] in "PQ" else sum(count(c) for c in n[1:])
+        if count(t) != 1:
+            return None
+    # inner quotients first: a holder's value may depend on fused nodes below it
+    return [ge.set_quot_stmt(q, y) for (q, y) in reversed(prep)]
+
+
+def tree_sig(t):
+    return " ".join(map(str, ge.code(t)))
+
+
+NEW_OK = "predictor out of date (NOT a violation of the property's statement): shape now accepted by the compiler and evaluates correctly"
+NEW_OK_NOTE = ("the generator's acceptance rules (tools/gen_expr.py `analyze`, Model/Expr.lean `compiles`) reject these shapes, the compiler of the tree under "
+               "check accepts them, and every executed statement (several operand fills, every aliasing pattern of the destination, construction, detach) "
+               "equals the exact coefficient-wise meaning.  The claim covers them from now on; the acceptance rules and the case generators have to be "
+               "extended to them: a broken tie without a failing input, not a counterexample")
+NEW_BAD = "VIOLATION of the statement: shape the acceptance rules reject is now accepted by the compiler and evaluates WRONGLY (failing inputs: SPECFAIL lines of stream "
+
+
+def execute_new_shapes(ctx, res, kind, seed, tier, new, cov):
+    """`new`: {(w, be): [dict(tree, prep, text, why)]} - shapes predicted to be rejected that the compiler accepts.  They are
+    inside the claim: execute each with several operand fills and every aliasing pattern (`asgx` lines: stores compared
+    with the exact coefficient-wise meaning and with the width-1 assignment loop of the model)."""
+    jobs, meta = [], {}
+    report = cov.setdefault("newly_accepted", [])
+
+    def runnable(s):
+        if kind == "c08":
+            return s.get("key") is not None and s["prep"] is not None
+        return s["prep"] is not None and ge.has_meaning(s["tree"])
+
+    def build(item):
+        (w, be), shapes = item
+        name = "%sx_w%d_%s" % (kind, w, be)
+        if kind == "c07":
+            cases = [c for s in shapes if runnable(s) for c in ge.family_exec_cases(s["tree"], s["prep"])]
+            parts = [dict(deg=16, nmod=2, profile="given", cases=cases), dict(deg=48, nmod=1, profile="given", cases=cases[::3])]
+            gen = lambda: ge.emit_c07(seed, w, be, 0, 0, tier, 90, parts=parts, op="asgx")
+            fn = "case_"
+        else:
+            cases = [ge.family_cmp_shape(s["key"], s["tree"], s["prep"]) for s in shapes if runnable(s)]
+            parts = [dict(deg=16, nmod=2, profile="given", full=True, shapes=cases), dict(deg=48, nmod=1, profile="given", shapes=cases)]
+            gen = lambda: ge.emit_c08(seed, w, be, 0, 0, tier, parts=parts, xmode=True)
+            fn = "shape_"
+        if not cases:
+            return (w, be), name, None, set(), cases, ""
+        dropped, last_err = set(), ""
+        for attempt in range(8):
+            src, spans, allc = gen()
+            if dropped:
+                src = drop_cases(src, spans, dropped, fn)
+            exe, err, cached = compile_tu(name, src, be, None)
+            if exe:
+                return (w, be), name, exe, dropped, allc, ""
+            bad = blame(err, name + ".cpp", spans) - dropped
+            last_err = err
+            if not bad:
+                break
+            dropped |= bad
+        return (w, be), name, None, dropped, cases, last_err
+
+    with ThreadPoolExecutor(max_workers=min(12, os.cpu_count() or 4)) as ex:
+        built = list(ex.map(build, sorted(new.items())))
+
+    def run(b):
+        (w, be), name, exe, dropped, allc, err = b
+        r2 = cl.StreamResult()
+        if exe:
+            env = {"VERIF_SEED": str(seed), "VERIF_TIER": tier}
+            if tier == "quick" and kind == "c08":
+                env["VERIF_EXPR_POS"] = "12"
+            cl.run_stream(r2, "%s/%s" % (kind, name), exe, env=env)
+        return r2
+
+    with ThreadPoolExecutor(max_workers=min(8, os.cpu_count() or 4)) as ex:
+        results = list(ex.map(run, built))
+    for b, r2 in zip(built, results):
+        (w, be), name, exe, dropped, allc, err = b
+        shapes = new[(w, be)]
+        failing_lines = [f["line"] for f in r2.specfail + r2.modeldiff]
+        good, wrong, skipped = [], [], []
+        for s in shapes:
+            txt = s["text"].replace("e.", "")
+            if not runnable(s):
+                skipped.append(txt)
+                continue
+            sig = " %d %s " % (len(ge.code(s["tree"])), tree_sig(s["tree"]))
+            (wrong if any(sig in l for l in failing_lines) else good).append(txt)
+        where = "limb %d backend %s" % (w, be)
+        if not exe and (good or wrong):
+            ctx["problems"].append({"kind": "harness-build", "what": "%s: the translation unit executing the newly accepted shapes does not compile: %s" % (
+                where, "; ".join(good + wrong)), "detail": err[-2500:]})
+            good, wrong = [], []
+        if r2.harness_rc != 0 or r2.bad:
+            ctx["problems"].append({"kind": "new-shape-run", "what": "%s: executing the newly accepted shapes: harness rc=%s, %d rejected line(s)" % (
+                where, r2.harness_rc, len(r2.bad)), "detail": (r2.harness_err[-1500:] + " ".join(r2.bad[:3]))})
+        if wrong:
+            ctx["problems"].append({"kind": "new-shape-wrong", "what": "%s: %s%s/%s): %s" % (where, NEW_BAD, kind, name, "; ".join(wrong)),
+                                    "verdict": "violation: accepted at compile time, wrong value"})
+        if good:
+            ctx["problems"].append({"kind": "predictor-new-shape-correct", "what": "%s: %s: %s  [configuration: %d statements executed, %d exact%s]" % (
+                where, NEW_OK, "; ".join(good), r2.lines, r2.ok, (", %d statement form(s) do not compile and were left out" % len(dropped)) if dropped else ""),
+                "note": NEW_OK_NOTE, "verdict": "not a violation of the statement: accepted and correct"})
+        if skipped:
+            ctx["problems"].append({"kind": "predictor", "what": "%s: predicted-rejected shape(s) now accepted by the compiler, NOT executed (no meaning in the specification "
+                                    "for a generic shoup node / no admissible operand preparation): %s" % (where, "; ".join(skipped))})
+        report.append({"config": where, "accepted_and_correct": good, "accepted_and_wrong": wrong, "not_executed": skipped,
+                       "statements": r2.lines, "exact": r2.ok})
+        cl.merge_results(res, [r2])
+
+
+def drop_cases(src, spans, drop, fn):
+    lines = src.split("\n")
+    kill = set()
+    for (a, b, k) in spans:
+        if k in drop:
+            kill.update(range(a - 1, b))
+    lines = [l for i, l in enumerate(lines) if i not in kill and not any(re.match(r"\s*%s%d\(e" % (fn, k), l) for k in drop)]
+    return "\n".join(lines)
+
+
+def run_probes(ctx, res, kind, seed, tier, cov, everything=False):
+    """Keep the compile predictor honest in BOTH directions with single-statement -fsyntax-only sources:
+    (a) a sample of random trees predicted accepted / rejected and of the degree rules (as before);
+    (b) a representative of every shape family the predictor rejects (gen_expr.family_probes: root kind x operand kinds
+        poly / poly_p / sub-expression of each mode in every operand position, per limb x backend; quick: a seed-rotated
+        subset that always contains the fused products with a handle factor; thorough: all of them);
+    a predicted-accepted shape the compiler rejects is a problem (the generated units would not build either);
+    a predicted-rejected shape the compiler ACCEPTS is inside the claim: it is executed (execute_new_shapes)."""
     n_acc, n_rej = (0, 1) if tier == "quick" else (3, 4)
     jobs = []
+    nfam = 0
     for w in LIMBS:
         for be in ("serial", "sse", "avx2"):
-            for k, (pred, why, text, source) in enumerate(ge.probes(seed, w, be, 16, n_acc, n_rej) + ge.degree_probes(seed, w, be, tier)):
-                jobs.append((w, be, k, pred, why, text, source))
-    os.makedirs(GEN_DIR, exist_ok=True)
+            plain = [] if everything else ge.probes(seed, w, be, 16, n_acc, n_rej) + ge.degree_probes(seed, w, be, tier)
+            # C07: the arithmetic families (assignments); C08: the comparison families (boolean conversions)
+            fam = ge.family_probes(seed, w, be, tier, roots=("cmp" if kind == "c08" else "arith"), everything=everything)
+            nfam += len(fam)
+            for k, pr in enumerate(plain + fam):
+                jobs.append((w, be, k) + tuple(pr))
 
     def one(j):
-        w, be, k, pred, why, text, source = j
-        src = os.path.join(GEN_DIR, "probe_%d_%s_%d.cpp" % (w, be, k))
-        open(src, "w").write(source)
-        r = cl.run(["g++"] + base_flags(be, syntax_only=True) + [src])
-        return j, r.returncode == 0, (r.stderr or "")[-600:]
+        w, be, k, pred, why, text, source, info = j
+        ok, err, cached = probe_compile("%d_%s_%d" % (w, be, k), be, source)
+        return j, ok, err, cached
 
-    agree = disagree = 0
-    with ThreadPoolExecutor(max_workers=min(12, os.cpu_count() or 4)) as ex:
-        for j, ok, err in ex.map(one, jobs):
-            w, be, k, pred, why, text, source = j
+    agree = disagree = ncached = 0
+    new = {}
+    t0 = time.time()
+    with ThreadPoolExecutor(max_workers=min(16, os.cpu_count() or 4)) as ex:
+        for j, ok, err, cached in ex.map(one, jobs):
+            w, be, k, pred, why, text, source, info = j
+            ncached += 1 if cached else 0
             if ok == pred:
                 agree += 1
+                continue
+            disagree += 1
+            if pred:
+                ctx["problems"].append({"kind": "predictor", "what": "compile predictor wrong for limb %d backend %s: %s predicted accepted (%s), compiler says rejected" % (
+                    w, be, text.replace("e.", ""), why), "detail": err})
+            elif info is not None and info["as_bool"] == (kind == "c08"):
+                prep = info["prep"] if info["key"] is not None else auto_prep(info["tree"])
+                new.setdefault((w, be), []).append(dict(tree=info["tree"], prep=prep, text=text, why=why, key=info["key"]))
             else:
-                disagree += 1
-                ctx["problems"].append({"kind": "predictor", "what": "compile predictor wrong for limb %d backend %s: %s predicted %s (%s), compiler says %s" % (
-                    w, be, text.replace("e.", ""), "accepted" if pred else "rejected", why, "accepted" if ok else "rejected"), "detail": err})
+                ctx["problems"].append({"kind": "predictor", "what": "compile predictor wrong for limb %d backend %s: %s predicted rejected (%s), compiler says accepted" % (
+                    w, be, text.replace("e.", ""), why), "detail": err})
+    save_probe_cache()
     cov["compile_probes"] = {"agree": agree, "disagree": disagree, "accepted_probes_per_config": n_acc, "rejected_probes_per_config": n_rej,
-                             "degree_probes": sum(len(ge.degree_probes(seed, w, be, tier)) for w in LIMBS for be in ("serial", "sse", "avx2"))}
+                             "degree_probes": 0 if everything else sum(len(ge.degree_probes(seed, w, be, tier)) for w in LIMBS for be in ("serial", "sse", "avx2")),
+                             "family_probes": nfam, "cached_verdicts": ncached, "wall_s": round(time.time() - t0, 1),
+                             "predicted_rejected_now_accepted": sum(len(v) for v in new.values())}
+    if new:
+        # one entry per distinct tree and configuration
+        for k in new:
+            seen, uniq = set(), []
+            for s in new[k]:
+                if tree_sig(s["tree"]) not in seen:
+                    seen.add(tree_sig(s["tree"]))
+                    uniq.append(s)
+            new[k] = uniq
+        ctx["new_shapes"] = True
+        execute_new_shapes(ctx, res, kind, seed, tier, new, cov)
 
 
 def expr_streams(ctx, res, kind, seed=None, tier=None, probes=True):
@@ -203,7 +438,7 @@ def expr_streams(ctx, res, kind, seed=None, tier=None, probes=True):
     cov["degrees"] = {"%d/%s" % (w, be): [16] + [d for d, _ in ge.degree_plan(w, ge.BE_CODE[be], tier)] for w in LIMBS for be in BACKENDS}
     expand_sweeps(res)
     if probes:
-        run_probes(ctx, seed, tier, cov)
+        run_probes(ctx, res, kind, seed, tier, cov)
     return cov
 
 
@@ -262,8 +497,26 @@ def expand_sweeps(res, max_sweeps=2, per_sweep=3):
 
 
 def expr_search(ctx, res, problems, kind):
-    """something broke without a failing input: explore further seeds at the thorough depth"""
+    """something broke without a failing input: explore further seeds at the thorough depth.  When the break is that the
+    compiler accepts shapes the acceptance rules reject (and the ones executed so far are exact), first widen exactly
+    there: probe EVERY rejected family in every configuration and execute all that compile, with another seed and the
+    thorough number of operand fills"""
     found = []
+    if ctx.get("new_shapes"):
+        r2 = cl.StreamResult()
+        c2 = {"problems": [], "seed": ctx["seed"], "tier": ctx["tier"]}
+        cov2 = {}
+        run_probes(c2, r2, kind, ctx["seed"] * 100 + 11, "thorough", cov2, everything=True)
+        ctx.setdefault("search_notes", []).append({"all_rejected_families": cov2.get("compile_probes"), "executed": cov2.get("newly_accepted")})
+        for sf in r2.specfail:
+            found.append({"kind": "spec", **sf})
+        for md in r2.modeldiff:
+            found.append({"kind": "modeldiff", **md})
+        if found:
+            return found
+        for p in c2["problems"]:
+            if p.get("kind") not in ("predictor-new-shape-correct",) and p not in problems:
+                problems.append(dict(p, found_by="search"))
     for s in range(2):
         r2 = cl.StreamResult()
         c2 = {"problems": [], "seed": ctx["seed"], "tier": ctx["tier"]}
